@@ -1,16 +1,24 @@
 #!/usr/bin/env bash
 # usage: tools/run_seed.sh <seeded/ID-n> [tier]   - applies the seeded change to /repo, runs the check of the
-# property it targets, prints the verdict, and ALWAYS restores /repo afterwards.
+# property it targets, prints the verdict, ALWAYS restores /repo afterwards, and records the outcome in
+# <seeded/ID-n>/detect.log (what DESIGN.md's table of seeded changes is generated from).
 set -u
 d="$(cd "$1" && pwd)"; tier="${2:-quick}"
 prop=$(jq -r .property "$d/meta.json")
 cd /repo || exit 2
 if ! git diff --quiet; then echo "run_seed: /repo has uncommitted changes"; exit 2; fi
 if ! git apply --check "$d/patch.diff" 2>/dev/null; then echo "run_seed: patch does not apply"; exit 2; fi
+head=$(git rev-parse --short HEAD)
 git apply "$d/patch.diff"
 trap 'git -C /repo checkout -- . ; git -C /repo clean -fdq crates' EXIT
 cd /verif
-mkdir -p /tmp/verif-seed-out
+mkdir -p /tmp/verif-seed-out; rm -f /tmp/verif-seed-out/replays/"$prop"-*
 out=$(VERIF_OUT=/tmp/verif-seed-out ./check "$prop" "$tier" 2>&1); code=$?
-echo "$out" | grep -E "^(VIOLATION|KNOWN-FINDING|INCONCLUSIVE|violation signature|$prop )" | head -20
-echo "seed $(basename "$d"): property=$prop tier=$tier exit=$code $( [ $code -eq 1 ] && echo DETECTED || echo MISSED )"
+echo "$out" | grep -E "^(VIOLATION|KNOWN-FINDING|INCONCLUSIVE|violation signature|$prop )" | head -12
+verdict=$( [ $code -eq 1 ] && echo DETECTED || echo MISSED )
+[ $code -eq 2 ] && verdict="INCONCLUSIVE"
+echo "seed $(basename "$d"): property=$prop tier=$tier exit=$code $verdict"
+{
+  echo "repo_head=$head verif_head=$(git -C /verif rev-parse --short HEAD) tier=$tier seed=${VERIF_SEED:-1} exit=$code verdict=$verdict"
+  echo "$out" | grep -E "^violation signature" | head -6
+} > "$d/detect.log"
